@@ -33,17 +33,27 @@ CLAIMED = {
             "DESIGN.md §5 C02"),
     "C03": ("Lean 4 proofs (every multiplication loop = k•P over an abstract commutative group, combined with the recoding theorems) + translator "
             "(add/dbl formula templates regenerated into Lean on every run and executed by the driver) + correspondence on six curves",
-            "Proved in Lean: the loops mirroring ep_mul_basic / slide / monty / lwnaf / lwreg, ep_mul_fix_basic, ep_mul_sim_trick / inter / joint "
-            "return k•P (resp. k•P + m•Q) for every integer k in any additive commutative group killed by n, using the proved recoding "
-            "theorems of C09. Tie T: the affine / projective / Jacobian add and dbl templates and their public wrappers are translated from "
-            "the C text into Lean on every run; the driver executes the generated definitions on the presented representation and they are "
-            "compared with the implementation and with the affine group law. Tie D: ~2300 lines per run on NIST/BSI/SM2 P-256, secp256k1, "
-            "BN-P256, SM9-P256: every add/dbl/mul/mul_fix/mul_sim variant by name, every scalar class for every variant, normalised / projective "
-            "operands with random z, all alias patterns. The theorems 'generated formula = chord-and-tangent law' are in progress (not yet "
-            "part of the obligations); comb methods and ep_mul_sim_lot are class C.",
+            "Proved in Lean (class A: model mirrors the C loop, theorem model = k•P resp. Σ kᵢ•Pᵢ for every integer scalar in any additive "
+            "commutative group killed by n, model executed by the driver on every line over Jacobian arithmetic and compared with the library): "
+            "ep_mul_basic / dig / slide / monty / lwnaf (plain: w-NAF; endomorphism curves: ep_mul_glv_imp with the integer model of bn_rec_glv) / "
+            "lwreg (plain), ep_mul_fix_basic / fix_lwnaf, the single-table comb ep_mul_pre_combs + ep_mul_fix_combs (plain and the endomorphism "
+            "variant ep_mul_combs_endom; also ep_mul_gen and ep_mul_fix), the double-table comb ep_mul_pre_combd + ep_mul_fix_combd, "
+            "ep_mul_sim_basic / trick / inter (plain and ep_mul_sim_endom) / joint / gen, ep_mul_sim_lot (plain; endomorphism: interleaved NAFs "
+            "up to ten points, bucket form above), ep_mul_sim_dig. GLV: k0 + k1·λ ≡ k (mod n) for the pair bn_rec_glv returns whenever the two "
+            "stored lattice rows annihilate (1, λ) (checked on G for every selected curve), and every GLV loop = k0•P + k1•ψ(P) for an additive ψ; "
+            "hence k•P given ψ(P) = λ•P. Tie T: the affine / projective / Jacobian add and dbl templates and their public wrappers are translated "
+            "from the C text into Lean on every run, executed by the driver and proved equal to the chord-and-tangent law (29 theorems). "
+            "Tie D: ~2800 lines per run on NIST/BSI/SM2 P-256, secp256k1, BN-P256, SM9-P256: every add/dbl/mul/mul_fix/mul_sim variant by name, "
+            "every scalar class (incl. comb-structured and λ-structured scalars) for every variant, normalised / projective operands, all alias "
+            "patterns; the precomputation tables of every fixed-base method entry by entry (eptab), and the fixed-base loops on caller-supplied "
+            "tables of arbitrary points (epfixt: model = the loop, specification = the closed form Σ 2^i·T[column i]). "
+            "Executed by the driver but NOT proved: ep_mul_reg_glv (ep_mul_lwreg on endomorphism curves; model Model/EpMul.mulRegGlv). "
+            "Hypothesis kept explicit: ep_mul_combs_endom ignores the sign of a sub-scalar longer than l·d bits (unreachable on the 256-bit "
+            "curves). Class C: ep_mul_cof, ep_psi (pinned by defining equations), ep_norm / ep_cmp, point encodings (C07).",
             "Trusted: Lean kernel; translator tools/translate.py (accepted fragment listed there; anything else is a translation failure); "
-            "abstract-group models tied to the C loops by whole-function correspondence; curve parameters read from the running library; known "
-            "findings F22 (identity as fixed base), F24 (sim table containing the identity).",
+            "abstract-group models tied to the C loops by whole-function correspondence plus table / arbitrary-table lines; the driver's "
+            "Jacobian evaluator (proved to represent the affine law in Lemmas/CurveFast); curve parameters, GLV lattice data, window width and "
+            "comb depth read from the running library; known findings F22 (identity as fixed base), F24 (sim table containing the identity).",
             "DESIGN.md §5 C03"),
     "C06": ("Lean 4 proofs (RSA exponent cancellation for every residue incl. non-units, Garner/CRT = plain exponentiation, PKCS#1 v1.5 / OAEP / "
             "basic padding codecs: round trip and 'accepts only the documented layout', integer-level padding scans of the model = byte-level "
